@@ -1,6 +1,6 @@
 use crate::{hash_path, user_forc_directory};
 use std::{
-    fs::{create_dir_all, read_dir, remove_file, File},
+    fs::{create_dir_all, read_dir, remove_file, rename, File},
     io::{self, Read, Write},
     path::{Path, PathBuf},
 };
@@ -196,13 +196,28 @@ impl PidFileLocking {
             create_dir_all(dir)?;
         }
 
-        verif_step!("lock.create");
-        let mut fs = File::create(&self.0)?;
-        verif_step!("lock.write");
-        fs.write_all(std::process::id().to_string().as_bytes())?;
-        fs.sync_all()?;
-        fs.flush()?;
-        Ok(())
+        // Write the PID to a process-private temporary file first and atomically rename it into
+        // place. Creating the lock file directly and writing the PID afterwards lets other processes
+        // observe an empty lock file, which they treat as stale and remove, losing the lock.
+        let mut tmp_path = self.0.clone().into_os_string();
+        tmp_path.push(format!(".{}.tmp", std::process::id()));
+        let tmp_path = PathBuf::from(tmp_path);
+        let write_and_publish = || -> io::Result<()> {
+            verif_step!("lock.tmpcreate");
+            let mut fs = File::create(&tmp_path)?;
+            verif_step!("lock.tmpwrite");
+            fs.write_all(std::process::id().to_string().as_bytes())?;
+            fs.sync_all()?;
+            fs.flush()?;
+            drop(fs);
+            verif_step!("lock.rename");
+            rename(&tmp_path, &self.0)
+        };
+        let result = write_and_publish();
+        if result.is_err() {
+            let _ = remove_file(&tmp_path);
+        }
+        result
     }
 
     /// Cleans up all stale lock files in the .lsp-locks directory
